@@ -19,7 +19,7 @@ ASSUMPTIONS = ["the slew limit per sample is v_per_sec*fs in data units (the fun
                "limit' case is not asserted (property: exceed; code: >=)",
                "exact-zero of the mute on a flagged sample is asserted to 1e-9 (FFT-based convolution may leave 1e-16)"]
 REQUIRED = {"contract:saturation_post": 300, "flags_compared": 300, "mute_zero_checked": 100, "same_flags_same_mute": 20,
-            "boundary_at_threshold": 50, "reader_ranges_checked": 16, "pipeline_runs": 2, "slew_only_twins": 20, "arrays_shorter_than_taper": 10, "pipeline_subset_runs": 2, "long_arrays": 3, "long_array_slew_flags": 30}
+            "boundary_at_threshold": 50, "reader_ranges_checked": 16, "pipeline_runs": 2, "slew_only_twins": 20, "arrays_shorter_than_taper": 10, "pipeline_subset_runs": 2, "long_arrays": 3, "long_array_slew_flags": 30, "pipeline_lf_flags_below_30k_limit": 4}
 CASE_TIMEOUT = 120.0
 
 _VIOL = []
@@ -31,7 +31,7 @@ def gen_cases(seed, tier):
     cases += [{"cls": "random", "seed": seed * 10000 + i, "n": 10, "_w": 1} for i in range(n // 2)]
     cases += [{"cls": "mute-shapes", "seed": seed * 10000 + i, "n": 10, "_w": 1} for i in range(n // 2)]
     cases += [{"cls": "reader-range", "seed": seed * 10000 + i, "n": 4, "_w": 2} for i in range(max(8, n // 20))]
-    cases += [{"cls": "pipeline", "seed": seed * 10000 + i, "_w": 12} for i in range(2 if tier == "quick" else 24)]
+    cases += [{"cls": "pipeline", "seed": seed * 10000 + i, "_w": 12} for i in range(3 if tier == "quick" else 24)]
     cases += [{"cls": "long", "seed": seed * 10000 + i, "_w": 3} for i in range(3 if tier == "quick" else 30)]
     return cases
 
@@ -230,12 +230,23 @@ def pipeline_case(case, V, res, rng):
     stride = nbatch - 2048
     ns = int(rng.integers(9000, 15000))
     kind = str(rng.choice(["3B2", "NP2.1"]))
-    if case["seed"] % 2 == 1:
-        kind = "3B2"        # every run holds an NP1-family recording whose header announces its own imMaxInt
+    if case["seed"] % 2 == 1 or case["seed"] % 3 == 2:
+        kind = "3B2"        # (the LF band exists on NP1-family probes only) every run holds an NP1-family recording whose header announces its own imMaxInt
     maxint = None if kind != "3B2" else (512, 1024, 256, None)[case["seed"] % 4]
-    rec = G.make(rng, kind=kind, sites=G.draw_sites(rng, kind, n, "dense"), ns=ns, raw=np.zeros((1, 1), np.int16), maxint=maxint)
+    lf = case["seed"] % 3 == 2      # one recording in three is the LF band of the probe (2500 Hz): the slew limit is volts per SECOND, i.e. 25 uV per
+    #                                 sample there against 300 uV per sample at 30 kHz (round 20)
+    rec = G.make(rng, kind=kind, sites=G.draw_sites(rng, kind, n, "dense"), ns=ns, raw=np.zeros((1, 1), np.int16), maxint=maxint,
+                 **({"stream": "lf", "fs": 2500.0} if lf else {}))
     s2v = rec.s2v[:n]
     x = rng.standard_normal((ns, n)) * 12e-6 + rng.standard_normal((ns, 1)) * 20e-6
+    if lf:
+        # a quiet band (sample-to-sample differences of a few uV) with level shifts of 60-220 uV on every channel / on one channel more than the
+        # proportion: above the limit at 2500 Hz, far below the one of a 30 kHz recording, nowhere near the amplitude limit
+        x = rng.standard_normal((ns, n)) * 1e-6 + rng.standard_normal((ns, 1)) * 1.5e-6
+        for a in rng.choice(np.arange(300, ns - 300, 50), 6, replace=False):
+            ch = np.arange(n) if rng.random() < 0.5 else rng.choice(n, kcrit_of(0.2, n) + 1, replace=False)
+            x[int(a):, ch] += float(rng.choice([-1, 1]) * rng.uniform(60e-6, 220e-6))
+            res.count("pipeline_lf_level_shifts")
     raw = np.clip(np.round(x / s2v[None, :]), -32768, 32767).astype(np.int16)
     runs = []
     kb = int(rng.integers(1, (ns - nbatch) // stride + 1))
@@ -260,7 +271,7 @@ def pipeline_case(case, V, res, rng):
         res.count("pipeline_subset_runs")
     rec.raw = np.ascontiguousarray(np.c_[raw, sync])
     b = G.write(rec, d / "rec")
-    label = f"{kind} imMaxInt={rec.maxint} ns={ns} nbatch={nbatch}: full-scale runs at {runs} (the last ones on {kc + 1} / {kc} of {n} channels)"
+    label = f"{kind}{' LF band 2500 Hz' if lf else ''} imMaxInt={rec.maxint} ns={ns} nbatch={nbatch}: full-scale runs at {runs} (the last ones on {kc + 1} / {kc} of {n} channels)"
     try:
         out = d / "out" / "destriped.bin"
         out.parent.mkdir()
@@ -269,6 +280,10 @@ def pipeline_case(case, V, res, rng):
         volts = raw.astype(np.float32).T * s2v.astype(np.float32)[:, None]
         ref = reference_flags(volts, s2v * rec.maxint, 1e-8, rec.fs, 0.2)
         res.count("pipeline_runs")
+        if lf:
+            d_ = np.abs(np.diff(volts, axis=-1))
+            only_slow = ref[:-1] & (np.sum(d_ >= 1e-8 * 30000, axis=0) == 0) & (np.sum(np.abs(volts[:, :-1]) > 0.98 * (s2v * rec.maxint)[:, None], axis=0) == 0)
+            res.count("pipeline_lf_flags_below_30k_limit", int(only_slow.sum()))
         ok = stored.shape == (ns,) and np.array_equal(np.asarray(stored, bool), ref)
         bad = np.flatnonzero(np.asarray(stored, bool) != ref) if stored.shape == (ns,) else []
         res.check(ok, "saturation:flags:pipeline", f"{label}: the stored per-sample flags differ from the proportion rule on the recorded voltages at {len(bad)} samples "
